@@ -21,4 +21,6 @@ def P(optimize=None):
         ns = types.SimpleNamespace(ctx=ctx, pinblock=ctx.modules['cardutil.pinblock'], key=ctx.modules['cardutil.key'],
                                    card=ctx.modules['cardutil.card'], secrets=secrets)
         _P[optimize] = ns
+        from . import common
+        common._snapshot_module_state(ns)          # module-level containers go back to their import-time content at every path start
     return _P[optimize]
